@@ -28,6 +28,41 @@ class BusySpin(EngineSignal):
     pass
 
 
+# --------------------------------------------------------------------------- watchdog for handlers that never return
+class HandlerHang(BaseException):
+    """a frame handler / job pass of the code under test used more than HANG_CPU_S seconds of CPU time: it does not return
+    (BaseException: the code under test catches Exception in several places)"""
+
+
+HANG_CPU_S = 20.0
+_wd = {'depth': 0}
+
+
+def _on_vtalrm(sig, frm):
+    raise HandlerHang()
+
+
+def _wd_enter():
+    import signal
+    _wd['depth'] += 1
+    if _wd['depth'] == 1:
+        try:
+            signal.signal(signal.SIGVTALRM, _on_vtalrm)
+            signal.setitimer(signal.ITIMER_VIRTUAL, HANG_CPU_S)
+        except ValueError:        # not the main thread: no watchdog
+            pass
+
+
+def _wd_exit():
+    import signal
+    _wd['depth'] -= 1
+    if _wd['depth'] == 0:
+        try:
+            signal.setitimer(signal.ITIMER_VIRTUAL, 0)
+        except ValueError:
+            pass
+
+
 # --------------------------------------------------------------------------- module stubs
 class _TimeMod:
     @staticmethod
@@ -287,6 +322,7 @@ class Node:
         self.silent_from = None    # frames sent with per-node index >= this are lost
         self.sent = 0
         self.held = False          # C08: job pass suspended by the line hook
+        self.hung = None           # a frame handler of this node did not return (watchdog)
         self.busy = Fraction(0)    # tx_time model: time the running job pass has spent in send calls
         self.busy_until = None     # tx_time model: instant at which the last job pass returned to its wait
         self.cas = []
@@ -402,20 +438,32 @@ class Node:
             msg.arbitration_id = frame['id']
             msg.data = data             # may hold proxies (the constructor would force them into a bytearray)
             msg.timestamp = w.now
+            _wd_enter()
             try:
                 self.ecu._listeners[0].on_message_received(msg)
+            except HandlerHang:
+                self.hung = 'frame handler (bus listener) did not return within %g s of CPU time' % HANG_CPU_S
+                w.log_event('handler-hang', self.name)
             except Exception as e:
                 self.listener_escapes.append(e)
                 w.log_event('exception-escaped-the-bus-listener', self.name, repr(e))
+            finally:
+                _wd_exit()
             return
         if frame['ext'] is False:
             return True      # MessageListener.on_message_received drops frames with an 11-bit identifier
+        _wd_enter()
         try:
             self.ecu.notify(frame['id'], data, w.now)
+        except HandlerHang:
+            self.hung = 'frame handler (notify) did not return within %g s of CPU time' % HANG_CPU_S
+            w.log_event('handler-hang', self.name)
         except Exception as e:
             # python-can's notifier thread: MessageListener.on_message_received logs and continues
             self.notify_errors.append(e)
             w.log_event('notify-exception', self.name, repr(e))
+        finally:
+            _wd_exit()
 
 
 # --------------------------------------------------------------------------- world
